@@ -35,13 +35,6 @@ def declare_main(spec):
                                "ufn('descendant', BOOL, self.pid, result[i])))"],
                       raises={'NoSuchProcess': ['kstep()', 'not (self.pid in K_alive)']},
                       note='T-PSUTIL children(recursive): pids of the current (recursive) children'))
-    spec.add(Contract('circus.process:Process.send_signal_child', params={'pid': INT, 'signum': INT},
-                      trusted=True, modifies=['K_alive', 'siglog'],
-                      ensures=['kstep()', 'length(siglog) == length(old(siglog)) + 1',
-                               'last(siglog) == sigev(pid, signum, clock, 0)', SIGKEEP],
-                      raises={'NoSuchProcess': ['kstep()', 'siglog == old(siglog)']},
-                      exc_modifies=['K_alive'],
-                      note='body verified separately (C18); signals only a current child'))
     spec.add(Contract('circus.process:Process.stop', trusted=True,
                       modifies=['K_alive', 'siglog', 'self.closed'],
                       ensures=['kstep()', 'self.closed', SIGKEEP,
